@@ -188,7 +188,32 @@ def translate(repo: Path) -> dict:
     if nums is None or sorted(nums.values()) != ["SHA1", "SHA256"]:
         raise T.TranslateError(f"OBJECT_FORMAT_TYPE_NUMS: {nums}")
     inv = {v: k for k, v in nums.items()}
+    zbuf = T.const_value(tree, "_ZLIB_BUFSIZE")
+    if zbuf != ZSLICE:
+        raise T.TranslateError(f"_ZLIB_BUFSIZE is {zbuf}; the harness' aligned-stream generator assumes {ZSLICE}")
+    ends_on_unused = {}
+    for q, want_tests in (("read_zlib_chunks_at", ["not add", "decomp_obj.unconsumed_tail", "unused", "crc32 is not None",
+                                                   "include_comp", "unused"]),
+                          ("read_zlib_chunks", ["not add", "decomp_obj.unconsumed_tail", "unused", "crc32 is not None",
+                                                "include_comp", "crc32 is not None"])):
+        fn = T.find_def(tree, q)
+        loops = [n for n in ast.walk(fn) if isinstance(n, ast.While)]
+        if len(loops) != 1:
+            raise T.TranslateError(f"{q}: expected one loop")
+        tests = [ast.unparse(n.test) for n in sorted((n for n in ast.walk(loops[0]) if isinstance(n, ast.If)),
+                                                     key=lambda n: (n.lineno, n.col_offset))]
+        if tests == want_tests:
+            ends_on_unused[q] = 1
+        elif [t.replace("decomp_obj.eof", "unused") for t in tests] == want_tests:
+            ends_on_unused[q] = 0          # the loop ends on `decomp_obj.eof`: the model follows, the theorem will not
+        else:
+            raise T.TranslateError(f"{q}: loop conditions changed: {tests}")
+        defaults = [ast.unparse(dflt) for dflt in fn.args.defaults]
+        if "_ZLIB_BUFSIZE" not in defaults:
+            raise T.TranslateError(f"{q}: buffer_size no longer defaults to _ZLIB_BUFSIZE")
     d = {
+        "zlibBufSize": zbuf, "zlibAtEndsOnUnused": ends_on_unused["read_zlib_chunks_at"],
+        "zlibStreamEndsOnUnused": ends_on_unused["read_zlib_chunks"],
         "ofsDelta": ofs, "refDelta": ref,
         # pack_object_header: c = (type_num << A) | (size & B); size >>= C; c | D; size & E; size >>= F
         "hdrTypeShift": ph[0], "hdrLowMask": ph[1], "hdrLowShift": ph[2], "hdrContBit": ph[3],
@@ -966,6 +991,14 @@ def build_records(objs, opts, scratch: Path):
     if path == "objects":
         _, it = P.pack_objects_to_data(sf, deltify=opts["deltify"], delta_window_size=opts["window"])
         return list(it)
+    if path == "aligned":
+        # objs = [(3, payload)] (full) or [(3, base), (3, base ++ new)] (hand-made delta on the base)
+        if opts.get("akind") == "delta":
+            (t0, b0), (t1, d1) = objs
+            return [P.UnpackedObject(t0, sha=obj_name(t0, b0), decomp_chunks=[b0]),
+                    P.UnpackedObject(t1, sha=obj_name(t1, d1), delta_base=obj_name(t0, b0),
+                                     decomp_chunks=[handmade_delta(b0, d1)])]
+        return [P.UnpackedObject(t, sha=obj_name(t, d), decomp_chunks=[d]) for t, d in objs]
     if path == "records":
         # hand-made delta forest in an arbitrary pack order (bases may come after their deltas => REF_DELTA)
         uniq = list({obj_name(t, d): (t, d) for t, d in objs}.items())
@@ -1025,6 +1058,236 @@ def build_records(objs, opts, scratch: Path):
     finally:
         store.close()
         shutil.rmtree(sd, ignore_errors=True)
+
+
+# ---- entries whose zlib stream ends exactly on (or one byte around) a multiple of the reader's slice size
+
+ZSLICE = 65536          # value of dulwich.pack._ZLIB_BUFSIZE, checked against the source by translate()
+
+
+def _enc_varint(n: int) -> bytes:
+    out = bytearray()
+    while True:
+        c = n & 0x7F
+        n >>= 7
+        if n:
+            out.append(c | 0x80)
+        else:
+            out.append(c)
+            return bytes(out)
+
+
+def handmade_delta(base: bytes, target: bytes) -> bytes:
+    """A valid delta for `target = base ++ new`: one copy of the whole (< 64 KiB) base, the rest as literals."""
+    assert target.startswith(base) and 0 < len(base) < 0x10000 and len(base) < 256 * 256
+    out = bytearray(_enc_varint(len(base)) + _enc_varint(len(target)))
+    ln = len(base)
+    cmd, args = 0x80, bytearray()
+    for i in range(2):
+        b = (ln >> (8 * i)) & 0xFF
+        if b:
+            cmd |= 1 << (4 + i)
+            args.append(b)
+    out.append(cmd)
+    out += args
+    new = target[len(base):]
+    for i in range(0, len(new), 127):
+        ch = new[i:i + 127]
+        out.append(len(ch))
+        out += ch
+    return bytes(out)
+
+
+def _clen(payload: bytes, level: int) -> int:
+    import zlib
+    return len(zlib.compress(payload, level))
+
+
+def find_aligned(rng, target: int, level: int, kind: str):
+    """Objects [(3, content)...] such that the entry of the last one (a full blob, or a delta on the first) has a
+    zlib stream of exactly `target` bytes at `level`.  Searches the payload size; None if this seed cannot hit it."""
+    for _attempt in range(4):
+        R = rng.randbytes(target + 400)
+        base = rng.randbytes(64)
+        if kind == "full":
+            def make(n):
+                return [(3, R[:n])], R[:n]
+        else:
+            def make(n):
+                t = base + R[:n]
+                return [(3, base), (3, t)], handmade_delta(base, t)
+        lo, hi = 1, target + 300
+        while lo < hi:                                     # smallest n with clen >= target (clen is near-monotone)
+            mid = (lo + hi) // 2
+            if _clen(make(mid)[1], level) >= target:
+                hi = mid
+            else:
+                lo = mid + 1
+        for n in sorted(range(max(1, lo - 40), lo + 40), key=lambda x: abs(x - lo)):
+            objs, payload = make(n)
+            if _clen(payload, level) == target:
+                return objs
+    return None
+
+
+def entry_layout(pack: bytes, offsets):
+    """[(offset, stream start, next offset)] computed from the bytes: header varint, OFS distance / REF name."""
+    offs = sorted(offsets)
+    out = []
+    for i, off in enumerate(offs):
+        nxt = offs[i + 1] if i + 1 < len(offs) else len(pack) - 20
+        p = off
+        ty = (pack[p] >> 4) & 7
+        while pack[p] & 0x80:
+            p += 1
+        p += 1
+        if ty == 6:
+            while pack[p] & 0x80:
+                p += 1
+            p += 1
+        elif ty == 7:
+            p += 20
+        out.append((off, p, nxt))
+    return out
+
+
+def index_paths_oracle(ctx, stream, case, base: str, pack: bytes, offsets, want, heavy: bool, git: bool):
+    """Every way dulwich COMPUTES an index from pack data must record, per entry, the CRC-32 of exactly the bytes
+    between consecutive offsets; include_comp chunks must be exactly the compressed bytes; every reader slice size
+    (also ones that end exactly with the stream) must give the same CRC, chunks and end offset."""
+    import binascii
+    import hashlib
+    import io
+    import shutil
+    import warnings
+    import dulwich.pack as P
+    from dulwich.object_format import SHA1
+    lay = entry_layout(pack, list(offsets.values()))
+    rng_crc = {off: binascii.crc32(pack[off:nxt]) & 0xFFFFFFFF for off, _, nxt in lay}
+    ok = True
+
+    def bad(what, extra=None):
+        nonlocal ok
+        ok = False
+        ctx.oracle_fail(stream, dict(case, **(extra or {})), what)
+
+    def check_entries(label, ents, with_crc=True):
+        got = {(bytes(a)): (b, c) for a, b, c in ents}
+        if {k: v[0] for k, v in got.items()} != {nm: off for nm, off in zip_names.items()}:
+            bad(f"{label}: names/offsets of the computed index differ from the pack")
+            return
+        if with_crc:
+            for nm, (off, crc) in got.items():
+                if crc != rng_crc[off]:
+                    s0, s1 = [(a, b) for o, a, b in lay if o == off][0]
+                    bad(f"{label}: CRC recorded for the entry at offset {off} is {crc:#010x}; the CRC-32 of pack[{off}:{s1}] is "
+                        f"{rng_crc[off]:#010x} (zlib stream of {s1 - s0} bytes = {(s1 - s0) // ZSLICE}*{ZSLICE}+{(s1 - s0) % ZSLICE})")
+                    return
+
+    zip_names = {nm: off for nm, off in offsets.items()}
+    with warnings.catch_warnings():
+        warnings.simplefilter("ignore")
+        try:
+            pd = P.PackData(base + ".pack", SHA1)
+            try:
+                check_entries("PackData.iterentries (PackIndexer)", list(pd.iterentries()))
+                # include_comp: the reused chunks are exactly the compressed bytes
+                for u, (off, s0, s1) in zip(pd.iter_unpacked(include_comp=True), lay):
+                    if u.offset != off or b"".join(u.comp_chunks) != pack[s0:s1]:
+                        bad(f"iter_unpacked(include_comp=True): comp_chunks of the entry at {off} are {len(b''.join(u.comp_chunks))} bytes, "
+                            f"the zlib stream pack[{s0}:{s1}] has {s1 - s0}")
+                        break
+                versions = (1, 2, 3) if heavy else (2,)
+                for v in versions:
+                    ip = f"{base}.computed-v{v}.idx"
+                    pd.create_index(ip, version=v)
+                    with open(ip, "rb") as f:
+                        ib = f.read()
+                    ix = _load_idx(ib, 20)
+                    try:
+                        check_entries(f"PackData.create_index_v{v}", list(ix.iterentries()), with_crc=(v != 1))
+                    finally:
+                        ix.close()
+                    if v == 2 and git and ok:
+                        gd = ctx.scratch / f"gitc-{ctx.evaluations}"
+                        _git(["init", "-q", "--bare", str(gd)], ctx.scratch)
+                        pk = gd / "objects" / "pack"
+                        pk.mkdir(parents=True, exist_ok=True)
+                        name = "pack-" + pack[-20:].hex()
+                        (pk / (name + ".pack")).write_bytes(pack)
+                        (pk / (name + ".idx")).write_bytes(ib)
+                        for cmd in (["verify-pack", "-v", str(pk / (name + ".idx"))], ["index-pack", "--verify", str(pk / (name + ".pack"))]):
+                            rc, out, err = _git(cmd, gd)
+                            if rc != 0:
+                                bad(f"git {cmd[0]} {cmd[1]} rejects the index dulwich computed for its own pack: {err.decode(errors='replace')[:160]}")
+                                break
+                        shutil.rmtree(gd, ignore_errors=True)
+                    Path(ip).unlink()
+            finally:
+                pd.close()
+            if heavy:
+                from dulwich.object_store import DiskObjectStore
+                sd = ctx.scratch / f"addpack-{ctx.evaluations}"
+                sd.mkdir()
+                store = DiskObjectStore.init(str(sd))
+                try:
+                    f, commit, abort = store.add_pack()
+                    f.write(pack)
+                    np_ = commit()
+                    if np_ is None:
+                        if offsets:
+                            bad("add_pack().commit() installed nothing")
+                    else:
+                        check_entries("add_pack().commit() (index written on ingestion)", list(np_.index.iterentries()))
+                finally:
+                    store.close()
+                    shutil.rmtree(sd, ignore_errors=True)
+        except Exception as e:  # noqa: BLE001
+            bad(f"computing an index from the pack data failed: {type(e).__name__}: {str(e)[:150]}")
+    # every slice size, in particular the ones that end exactly with the stream, for both readers
+    lines, meta = [], []
+    for off, s0, s1 in lay[: (12 if heavy else 5)]:
+        L = s1 - s0
+        sizes = {L, L + 1, max(1, L - 1), max(1, L // 2), ZSLICE}
+        if L % 3 == 0:
+            sizes.add(max(1, L // 3))
+        if L <= 400:
+            sizes.add(1)
+        for B in sorted(sizes):
+            ctx.count(stream + ".slices", (pack[-20:], off, B), True, "aligned" if L % B == 0 else "unaligned")
+            try:
+                u, end = P.unpack_object_at(pack, off, hashlib.sha1, compute_crc32=True, include_comp=True, zlib_bufsize=B)
+                got = (end, u.crc32, b"".join(u.comp_chunks))
+            except Exception as e:  # noqa: BLE001
+                got = f"{type(e).__name__}: {e}"
+            if got != (s1, rng_crc[off], pack[s0:s1]):
+                bad(f"unpack_object_at with {B}-byte slices on a {L}-byte zlib stream: end/CRC/comp_chunks = "
+                    f"{got if isinstance(got, str) else (got[0], hex(got[1]), len(got[2]))}; want ({s1}, {rng_crc[off]:#x}, {L})", {"slice": B, "offset": off})
+                break
+            if L <= 3000:
+                lines.append(f"c02.zat {B} {L} {hx(pack[s0:s0 + L + 40])}")
+                meta.append((off, B, L, f"ok {hx(pack[s0:s1])} {L}"))
+            try:
+                f = io.BytesIO(pack)
+                f.seek(off)
+                u, unused = P.unpack_object(f.read, hashlib.sha1, read_some=f.read, compute_crc32=True, include_comp=True, zlib_bufsize=B)
+                got = (f.tell() - len(unused), u.crc32, b"".join(u.comp_chunks))
+            except Exception as e:  # noqa: BLE001
+                got = f"{type(e).__name__}: {e}"
+            if L <= 3000 and not isinstance(got, str):
+                nch = (L // B) + 1
+                lines.append(f"c02.zstream {L}" + "".join(" " + hx(pack[s0 + i * B: s0 + (i + 1) * B]) for i in range(nch)))
+                meta.append((off, B, L, f"ok {hx(got[2])} {hx(bytes(unused))}"))
+            if got != (s1, rng_crc[off], pack[s0:s1]):
+                bad(f"unpack_object (streaming) with {B}-byte reads on a {L}-byte zlib stream: end/CRC/comp_chunks = "
+                    f"{got if isinstance(got, str) else (got[0], hex(got[1]), len(got[2]))}; want ({s1}, {rng_crc[off]:#x}, {L})", {"slice": B, "offset": off})
+                break
+    if lines:
+        outs = ctx.driver.batch(lines)
+        for (off, B, L, wantline), o in zip(meta, outs):
+            if o != wantline:
+                ctx.disagree(stream + ".slices.model", dict(case, slice=B, offset=off, stream_len=L), o[:120], wantline[:120])
+    return ok
 
 
 def expected_mapping(objs):
@@ -1186,6 +1449,18 @@ def pack_case(ctx, stream, objs, opts, workers=None, model=True, git=False):
     if not ok:
         _rm_pack_files(base)
         return ok
+    # ---------------- every index-producing path, every reader slice size
+    heavy = opts["path"] == "aligned" or ctx.evaluations % 4 == 0
+    if not index_paths_oracle(ctx, stream + ".index-paths", case, base, pack, {k: v[0] for k, v in entries.items()}, want,
+                              heavy=heavy, git=(git or opts["path"] == "aligned")):
+        _rm_pack_files(base)
+        return False
+    if opts["path"] == "aligned":
+        lay = entry_layout(pack, [v[0] for v in entries.values()])
+        L = lay[-1][2] - lay[-1][1]
+        d = ctx.hist.setdefault(stream + ".aligned-streams", {})
+        key = f"{opts.get('akind')}:level{opts['level']}:{L // ZSLICE}x{ZSLICE}{L % ZSLICE - ZSLICE if L % ZSLICE > ZSLICE // 2 else L % ZSLICE:+d}"
+        d[key] = d.get(key, 0) + 1
     # ---------------- streaming reader under a random chunking of the same bytes
     try:
         f = io.BytesIO(pack)
@@ -1461,11 +1736,140 @@ def _stream_packs(ctx, workers):
         for v in (1, 2, 3):
             opts = {"path": path, "deltify": True, "window": None, "level": -1, "version": v, "cache": None, "sub": 1, "chunked": False}
             pack_case(ctx, "pack", objs, opts, workers=workers, model=True, git=(v == 2))
+    _stream_aligned(ctx, workers)
     for i in range(ctx.budget(16, mult=6)):
         objs = gen_git_history(rng)
         gopts = {"depth": rng.choice([50, 50, 50, 10, 1]), "window": rng.choice([10, 10, 50]), "ofs": rng.random() < 0.5,
                  "idxv": rng.choice([None, None, 1]), "threads": rng.choice([1, 1, 1, None])}
         git_pack_case(ctx, "gitpack", objs, gopts)
+
+
+def aligned_targets(ctx):
+    """(k, delta, level, kind): zlib stream length k*65536 + delta."""
+    rng = ctx.rng
+    allt = [(k, dl, lv, kind) for k in (1, 2) for dl in (0, -1, 1) for lv in (0, 1, -1, 6) for kind in ("full", "delta")]
+    must = [(1, 0, 0, "full"), (1, 0, -1, "full"), (1, 0, 0, "delta"), (1, 0, 6, "delta"), (2, 0, 1, "full")]
+    if ctx.thorough:
+        return allt
+    rest = [t for t in allt if t not in must]
+    return must + rng.sample(rest, ctx.budget(5))
+
+
+def _stream_aligned(ctx, workers):
+    """Packs (dulwich- and git-written) holding an entry whose zlib stream ends exactly on, or one byte around, a
+    multiple of the 64 KiB slice in which read_zlib_chunks_at walks the mapped pack."""
+    rng = ctx.rng
+    for k, dl, lv, kind in aligned_targets(ctx):
+        objs = find_aligned(rng, k * ZSLICE + dl, lv, kind)
+        if objs is None:
+            ctx.hist.setdefault("pack.aligned-streams", {})
+            ctx.hist["pack.aligned-streams"]["search-missed"] = ctx.hist["pack.aligned-streams"].get("search-missed", 0) + 1
+            continue
+        opts = {"path": "aligned", "akind": kind, "deltify": kind == "delta", "window": None, "level": lv,
+                "version": rng.choice([1, 2, 2, 3]), "cache": None, "sub": 0, "chunked": False}
+        pack_case(ctx, "pack", objs, opts, workers=workers, model=(k == 1), git=True)
+    # git-written: steer the blob size until git's own stream has the wanted length
+    for k, dl, lv in [(1, 0, 0), (1, 0, -1)] + ([(2, 0, 1), (1, 1, 0), (1, -1, 6), (2, 0, 0)] if ctx.thorough else [(rng.choice([1, 2]), rng.choice([-1, 0, 1]), rng.choice([0, 1, 6]))]):
+        git_aligned_case(ctx, "gitpack.aligned", k * ZSLICE + dl, lv)
+    for lv, ofs in [(0, True), (-1, False)] + ([(1, True), (6, False)] if ctx.thorough else []):
+        git_aligned_delta_case(ctx, "gitpack.aligned", ZSLICE, lv, ofs)
+
+
+def git_aligned_delta_case(ctx, stream, target: int, level: int, ofs: bool):
+    """Same for a DELTA entry written by git: a big base, and a target sharing half of it plus fresh bytes, so that
+    git stores the target as a delta whose zlib stream is steered to exactly `target` bytes."""
+    import shutil
+    rng = ctx.rng
+    B0 = rng.randbytes(150000)
+    R = rng.randbytes(target + 2000)
+    n = target - 600
+    gd = ctx.scratch / f"gitd-{ctx.evaluations}"
+    try:
+        hit = None
+        for _round in range(10):
+            shutil.rmtree(gd, ignore_errors=True)
+            _git(["init", "-q", "--bare", str(gd)], ctx.scratch)
+            tgt = B0[:70000] + R[:n]
+            ids = b""
+            for blob in (B0, tgt):
+                rc, out, err = _git(["hash-object", "-w", "--stdin"], gd, inp=blob)
+                ids += out
+            cfg = ["-c", f"pack.compression={level}"] if level != -1 else []
+            rc, out, err = _git(cfg + ["pack-objects", "-q", "--threads=1"] + (["--delta-base-offset"] if ofs else []) + [str(gd / "out")], gd, inp=ids)
+            if rc != 0:
+                raise core.InfraError("git pack-objects failed: " + err.decode(errors="replace"))
+            base = str(gd / ("out-" + out.strip().decode()))
+            pack = Path(base + ".pack").read_bytes()
+            ix = _load_idx(Path(base + ".idx").read_bytes(), 20)
+            try:
+                offs = {bytes(a): b for a, b, c in ix.iterentries()}
+            finally:
+                ix.close()
+            lay = {o: (a, b) for o, a, b in entry_layout(pack, list(offs.values()))}
+            toff = offs[obj_name(3, tgt)]
+            if (pack[toff] >> 4) & 7 not in (6, 7):
+                break                                  # git did not deltify the target: give up on this seed
+            L = lay[toff][1] - lay[toff][0]
+            if L == target:
+                hit = (base, pack, offs, tgt)
+                break
+            n += target - L
+        ctx.count(stream, (target, level, ofs, n), True, f"delta:{'ofs' if ofs else 'ref'}:level{level}:{'hit' if hit else 'missed'}")
+        if hit is None:
+            return
+        base, pack, offs, tgt = hit
+        case = {"kind": "gitaligned-delta", "target": target, "level": level, "ofs": ofs}
+        index_paths_oracle(ctx, stream, case, base, pack, offs, {obj_name(3, B0): (3, B0), obj_name(3, tgt): (3, tgt)}, heavy=True, git=True)
+    finally:
+        shutil.rmtree(gd, ignore_errors=True)
+
+
+def git_aligned_case(ctx, stream, target: int, level: int):
+    """A blob (and a delta on a big base) packed by `git -c pack.compression=<level> pack-objects`, sized so that the
+    entry's zlib stream is exactly `target` bytes; then every index dulwich computes for git's pack is checked."""
+    import shutil
+    import dulwich.pack as P
+    rng = ctx.rng
+    R = rng.randbytes(target + 600)
+    n = target - 16
+    gd = ctx.scratch / f"gita-{ctx.evaluations}"
+    try:
+        hit = None
+        for _round in range(8):
+            shutil.rmtree(gd, ignore_errors=True)
+            _git(["init", "-q", "--bare", str(gd)], ctx.scratch)
+            blob = R[:n]
+            rc, out, err = _git(["hash-object", "-w", "--stdin"], gd, inp=blob)
+            cfg = ["-c", f"pack.compression={level}"] if level != -1 else []
+            rc, out, err = _git(cfg + ["pack-objects", "-q", str(gd / "out")], gd, inp=out)
+            if rc != 0:
+                raise core.InfraError("git pack-objects failed: " + err.decode(errors="replace"))
+            base = str(gd / ("out-" + out.strip().decode()))
+            pack = Path(base + ".pack").read_bytes()
+            (off, s0, s1), = entry_layout(pack, [12])
+            L = s1 - s0
+            if L == target:
+                hit = (base, pack, blob)
+                break
+            n += target - L
+        ctx.count(stream, (target, level, n), True, f"level{level}:{'hit' if hit else 'missed'}:{target // ZSLICE}x{ZSLICE}{target % ZSLICE - ZSLICE if target % ZSLICE > ZSLICE // 2 else target % ZSLICE:+d}")
+        if hit is None:
+            return
+        base, pack, blob = hit
+        case = {"kind": "gitaligned", "target": target, "level": level, "blob": hx(blob)}
+        nm = obj_name(3, blob)
+        index_paths_oracle(ctx, stream, case, base, pack, {nm: 12}, {nm: (3, blob)}, heavy=True, git=True)
+        # git's own index agrees with the range CRC too (sanity of the oracle itself)
+        ix = _load_idx(Path(base + ".idx").read_bytes(), 20)
+        try:
+            import binascii
+            (_, off, crc), = list(ix.iterentries())
+            if crc != binascii.crc32(pack[12:len(pack) - 20]) & 0xFFFFFFFF:
+                raise core.InfraError("range-CRC oracle disagrees with git's own index")
+        finally:
+            ix.close()
+    finally:
+        shutil.rmtree(gd, ignore_errors=True)
 
 
 # ------------------------------------------------------------------------------------------------
@@ -1498,6 +1902,10 @@ def _dispatch(ctx, stream, c, workers, model=False):
         trailer_case(ctx, stream, c["hs"], b"".join(chunks), chunks, out)
     elif kind == "pack":
         pack_case(ctx, stream, [(t, unhx(d)) for t, d in c["objs"]], c["opts"], workers=workers, model=model, git=True)
+    elif kind == "gitaligned-delta":
+        git_aligned_delta_case(ctx, stream, c["target"], c["level"], c["ofs"])
+    elif kind == "gitaligned":
+        git_aligned_case(ctx, stream, c["target"], c["level"])
     elif kind == "gitpack":
         git_pack_case(ctx, stream, [(t, unhx(d)) for t, d in c["objs"]], c["gopts"])
     else:
